@@ -50,6 +50,8 @@ def step (s : DState) (line : String) : DState × String :=
   | some ("kmapc", _) => (s, kmapc toks)
   | some ("kmapbig", _) => (s, kmapbig toks)
   | some ("kltype", _) => (s, kltype toks)
+  | some ("kltqc", _) => (s, kltqc toks)
+  | some ("kcompose", _) => (s, kcompose toks)
   | some ("k19", _) => (s, k19 toks)
   | some ("kcs", _) => (s, kcs toks)
   | some ("k7pair", _) => (s, k7pair toks)
